@@ -16,6 +16,14 @@ scenario `merged:<La>:<Lb>:<Lq>`  two MutableDictionary children holding one wor
     a MergedDictionary, and an FstDictionary wrapper around the first child: every membership / exact-capitalisation /
     metadata / canonical-spelling query - `[char]` and `str` forms - answers as the union of the parts (first part that
     knows the word wins), and the FstDictionary answers exactly like the MutableDictionary it wraps.
+scenario `union:<child>:<child>[:<child>]:<Lq>`  (child = word lengths joined by '+', e.g. `1+1`) a MergedDictionary assembled by the
+    real `MergedDictionary::new` + `add_dictionary` (child hashing executed; the hasher records what is written and `finish`
+    is injective in it; `FstDictionary::curated()` is a stub pointer no child is equal to): membership, exact membership and
+    canonical spelling are the union of ALL children that were added.
+scenario `fstfuzzy:<Lq>:<D>:<R>:<L1>[:<L2>]`  the real `FstDictionary::fuzzy_match` with the fst / levenshtein_automata crates behind
+    a contract (the DFA search yields, in key order, exactly the indexed words within distance D of its query, with exact
+    distances): results are dictionary words with a true distance (to the query or its lower-case form) within the bound,
+    ordered, distinct, capped, and complete for lower-case queries.
 scenario `fuzzy:<Lq>:<D>:<R>:<L1>[:<L2>]`  one MutableDictionary holding one or two words, `fuzzy_match(query, D, R)`: every
     result is one of the words, its distance is min(lev(query, w), lev(lower(query), w)) <= D, results are ordered by
     distance, distinct and at most R, and (R >= number of words) every word within distance D of a lower-case query is
@@ -75,7 +83,8 @@ def run(mir_path, scenario, src_dir):
     enums = load_enums(src_dir)
     structs = load_structs(src_dir)
     parts = scenario.split(":")
-    kind, dims = parts[0], [int(x) for x in parts[1:]]
+    kind = parts[0]
+    dims = [int(x) for x in parts[1:]] if kind != "union" else []
     ex = Explorer()
     result = {"scenario": scenario, "violations": [], "panics": [], "functions": set()}
 
@@ -112,7 +121,43 @@ def run(mir_path, scenario, src_dir):
                 t = (t << 7) | z3.ZeroExt(32, c & 0x7F)
             return Int(t, 64, False)
 
-        resolve = {r"as BuildHasher>::hash_one::<": hash_one}
+        class SymHasher:
+            heap = True
+
+            def __init__(self):
+                self.rec = []
+
+        def pack(terms):
+            if len(terms) > 8:
+                raise Unsupported("more than 8 chars written to a hasher")
+            t = z3.BitVecVal(len(terms), 64)
+            for c in terms:
+                t = (t << 7) | z3.ZeroExt(32, c & 0x7F)
+            return Int(t, 64, False)
+
+        def build_hasher(it_, callee, args):
+            return SymHasher()
+
+        def write_u32(it_, callee, args):
+            deref(args[0]).rec.append(deref(args[1]).t if not isinstance(args[1], Int) else args[1].t)
+            return ()
+
+        def finish(it_, callee, args):
+            # injective in what was written (ASCII letters): the hash *is* the written sequence
+            return pack(deref(args[0]).rec)
+
+        def curated_stub(it_, callee, args):
+            return BoxRef(Cell(Adt("FstDictionary", [BoxRef(Cell(Adt("MutableDictionary", ["curated"]))), "fst-map", VecObj([])])))
+
+        def ptr_eq(it_, callee, args):
+            a, b = args
+            a = a.get() if isinstance(a, Ref) and isinstance(a.get(), Ref) else a
+            b = b.get() if isinstance(b, Ref) and isinstance(b.get(), Ref) else b
+            return z3.BoolVal(a.cell is b.cell)
+
+        resolve = {r"as BuildHasher>::hash_one::<": hash_one, r"as BuildHasher>::build_hasher$": build_hasher,
+                   r"as Hasher>::write_u32$": write_u32, r"as Hasher>::finish$": finish, r"^FstDictionary::curated$": curated_stub,
+                   r"^Arc::<.*>::ptr_eq$": ptr_eq}
         it = Interp(raw, MODELS, ctx, resolve, enums=enums)
         MD, MG, FS = "MutableDictionary", "MergedDictionary", "FstDictionary"
         f_new = find("::new", MD, it=it)
@@ -214,6 +259,122 @@ def run(mir_path, scenario, src_dir):
                         else:
                             okw = z3.And(want_some, seq_eq(got, want_word))
                         claims.append((okw, f"{ty}::get_correct_capitalization_of does not return the stored spelling"))
+            elif kind == "union":
+                # a MergedDictionary assembled by the real `MergedDictionary::new` + `add_dictionary` (with its child hashing)
+                specs = parts[1:-1]
+                lq = int(parts[-1])
+                q = word("q", lq)
+                ws = {"q": q}
+                low = lambda w: [lower(c) for c in w]
+                kids = []
+                result["children_tags"] = []
+                tagc = iter("abcdefgh")
+                for spec in specs:
+                    wl_ = []
+                    for n in spec.split("+"):
+                        t = next(tagc)
+                        w_ = word(t, int(n))
+                        ws[t] = w_
+                        wl_.append((w_, "meta_" + t))
+                    for i in range(len(wl_)):
+                        for j in range(i):
+                            ctx.assume(z3.Not(seq_eq(low(wl_[i][0]), low(wl_[j][0]))))  # distinct entries inside one dictionary
+                    cell, metas = mk_dict(wl_)
+                    kids.append((cell, [w_ for w_, _t in wl_], metas))
+                    result["children_tags"].append([t_[5:] for _w, t_ in wl_])
+                f_mnew = find("::new", MG, it=it)
+                f_add = find("::add_dictionary", MG, it=it)
+                cm = Cell(it.call_fn(f_mnew, []))
+                for cell, _w, _m in kids:
+                    it.call_fn(f_add, [Ref(cm), BoxRef(cell)])
+                all_words = [(w_, md) for _c, wl_, ms_ in kids for w_, md in zip(wl_, ms_)]
+                contains = z3.Or(*[seq_eq(low(w_), low(q)) for w_, _m in all_words])
+                exact = z3.Or(*[seq_eq(w_, q) for w_, _m in all_words])
+
+                def as_bool(v):
+                    return v if z3.is_bool(v) else (v.t != 0)
+
+                r = call(MG, "contains_word", cm, q_slice(q))
+                claims.append((as_bool(r) == contains, "MergedDictionary (built with add_dictionary)::contains_word is not the union of its parts"))
+                r = call(MG, "contains_exact_word", cm, q_slice(q))
+                claims.append((as_bool(r) == exact, "MergedDictionary (built with add_dictionary)::contains_exact_word is not the union of its parts"))
+                r = call(MG, "get_correct_capitalization_of", cm, q_slice(q))
+                if r.variant == "None":
+                    claims.append((z3.Not(contains), "MergedDictionary (built with add_dictionary)::get_correct_capitalization_of misses a word of a part"))
+                else:
+                    got = chars_of(r.fields[0])
+                    claims.append((z3.Or(*[z3.And(seq_eq(low(w_), low(q)), seq_eq(got, w_)) for w_, _m in all_words]),
+                                   "MergedDictionary (built with add_dictionary)::get_correct_capitalization_of returns something else than a stored spelling of the word"))
+                r = call(MG, "word_count", cm) if [n for n in raw if n.endswith("::word_count") and it.impl_type(n) == MG] else None
+            elif kind == "fstfuzzy":
+                # FstDictionary::fuzzy_match with the fst crate behind a contract: `build_dfa(D, query)` + `search_with_state` +
+                # `stream_distances_vec` yield, in key (lexicographic) order, exactly the (index, distance) pairs of the indexed
+                # words whose Levenshtein distance to that query is <= D, with the exact distance. Everything after that - the zip of
+                # the two result lists, the choice, the index into `words`, sort / dedup / sort / truncate - is the real code.
+                lq, D, R = dims[:3]
+                wl = dims[3:]
+                q = word("q", lq)
+                wds = [word("ab"[k], n) for k, n in enumerate(wl)]
+                ws = {"q": q}
+                ws.update({"ab"[k]: w for k, w in enumerate(wds)})
+                low = lambda w: [lower(c) for c in w]
+                if len(wds) == 2:
+                    ctx.assume(z3.Not(seq_eq(low(wds[0]), low(wds[1]))))
+                    # FstDictionary::new sorts its word list: index order = lexicographic order
+                    a_, b_ = wds
+                    lt = z3.BoolVal(len(a_) < len(b_))
+                    for i in range(min(len(a_), len(b_)) - 1, -1, -1):
+                        lt = z3.If(z3.ULT(a_[i], b_[i]), z3.BoolVal(True), z3.If(a_[i] == b_[i], lt, z3.BoolVal(False)))
+                    ctx.assume(lt)
+                cfull, metas = mk_dict([(w, "meta_" + "ab"[k]) for k, w in enumerate(wds)])
+                words_vec = VecObj([Tup([VecObj([Int(c, 32) for c in w]), md]) for w, md in zip(wds, metas)])
+                cf = Cell(Adt(FS, [BoxRef(cfull), "fst-map", words_vec]))
+
+                def build_dfa(it_, callee, args):
+                    return Adt("DFA", [args[0], deref(args[1])])
+
+                def search(it_, callee, args):
+                    return args[1]
+
+                def stream_distances(it_, callee, args):
+                    dfa = deref(args[1])
+                    dmax, qs = dfa.fields[0], [c.t for c in dfa.fields[1].chars]
+                    out_ = []
+                    for k, w in enumerate(wds):
+                        dist = lev(qs, w)
+                        if it_.ctx.branch(z3.ULE(dist, dmax.t)):
+                            out_.append(Tup([Int(k, 64), Int(dist, 8)]))
+                    return VecObj(out_)
+
+                it.resolve_map[r"^(fst_dictionary::)?build_dfa$"] = build_dfa
+                it.resolve_map[r"^fst::Map::<.*>::search_with_state::<"] = search
+                it.resolve_map[r"as IntoStreamer<'_>>::into_stream$"] = lambda it_, c_, a: a[0]
+                it.resolve_map[r"^(fst_dictionary::)?stream_distances_vec$"] = stream_distances
+                ds = [(lev(q, w), lev(low(q), w)) for w in wds]
+                q_is_lower = z3.And(*[z3.UGE(c, 97) for c in q]) if q else z3.BoolVal(True)
+                out = call(FS, "fuzzy_match", cf, q_slice(q), Int(D, 8), Int(R, 64))
+                res = [c.v for c in out.elems]
+                ty = FS
+                if len(res) > R:
+                    claims.append((z3.BoolVal(False), f"{ty}::fuzzy_match returns more than max_results results"))
+                prev = None
+                hits = [z3.BoolVal(False) for _ in wds]
+                for r in res:
+                    wd, dist = chars_of(r.fields[0]), r.fields[1].t
+                    iss = [seq_eq(wd, w) for w in wds]
+                    claims.append((z3.Or(*[z3.And(i_, z3.Or(dist == d_, dist == dl_)) for i_, (d_, dl_) in zip(iss, ds)]),
+                                   f"{ty}::fuzzy_match: a result is not a dictionary word with a true edit distance to the query or its lower-case form"))
+                    claims.append((z3.ULE(dist, D), f"{ty}::fuzzy_match: a result lies beyond max_distance"))
+                    if prev is not None:
+                        claims.append((z3.ULE(prev, dist), f"{ty}::fuzzy_match: results are not ordered by distance"))
+                    prev = dist
+                    hits = [z3.Or(h, i_) for h, i_ in zip(hits, iss)]
+                if len(res) == 2:
+                    claims.append((z3.Not(seq_eq(chars_of(res[0].fields[0]), chars_of(res[1].fields[0]))), f"{ty}::fuzzy_match returns the same word twice"))
+                if R >= len(wds):
+                    for h, (d_, dl_) in zip(hits, ds):
+                        claims.append((z3.Implies(z3.And(q_is_lower, z3.ULE(d_, D)), h),
+                                       f"{ty}::fuzzy_match misses a word within max_distance of a lower-case query"))
             elif kind == "fuzzy":
                 lq, D, R = dims[:3]
                 wl = dims[3:]
@@ -281,8 +442,10 @@ def run(mir_path, scenario, src_dir):
             ok, model = ctx.valid(claim, nice)
             if not ok:
                 d = describe(model, ws)
-                if kind == "fuzzy":
+                if kind in ("fuzzy", "fstfuzzy"):
                     d.update(max_distance=dims[1], max_results=dims[2])
+                if kind == "union":
+                    d["children"] = [[d[t] for t in ch] for ch in result["children_tags"][:len(parts) - 2]]
                 result["violations"].append({"what": what, "input": d})
                 break
 
